@@ -311,3 +311,142 @@ def codec_tables(ctx: Ctx):
                     tag=_tag, result_keys=("r", "z", "s"),
                     describe=lambda r: str({k: (bytes(v).hex() if k == "s" and isinstance(v, list) else v)
                                             for k, v in r.items()}))
+
+
+# ----------------------------------------------------------------------------- full size (BigNat)
+def big_rows(ctx: Ctx):
+    from py_ecc import optimized_bls12_381 as ob
+    from py_ecc.bls import g2_primitives as g2p
+    from .constants import limbs
+    from .grouptrace import f2_inv, f2_mul, f2_sqrt, f_inv
+    rng = random.Random(ctx.seed + 43)
+    quick = ctx.tier == "quick"
+    p, r = ob.field_modulus, ob.curve_order
+
+    def aff(P, d):
+        cs = [tuple(int(t) for t in (c.coeffs if d == 2 else (c.n,))) for c in P]
+        if not any(cs[2]):
+            return None
+        if d == 1:
+            zi = f_inv(p, cs[2][0])
+            return ((cs[0][0] * zi % p,), (cs[1][0] * zi % p,))
+        zi = f2_inv(p, cs[2])
+        return (f2_mul(p, cs[0], zi), f2_mul(p, cs[1], zi))
+
+    def L(pt):
+        return [] if pt is None else [[limbs(c) for c in pt[0]], [limbs(c) for c in pt[1]]]
+
+    def rhs(x, d):
+        if d == 1:
+            return ((x[0] ** 3 + 4) % p,)
+        x3 = f2_mul(p, f2_mul(p, x, x), x)
+        return ((x3[0] + 4) % p, (x3[1] + 4) % p)
+
+    def sqrt(a, d):
+        if d == 1:
+            y = pow(a[0], (p + 1) // 4, p)
+            return (y,) if y * y % p == a[0] else None
+        y = f2_sqrt(p, a)
+        return y if y is not None and f2_mul(p, y, y) == a else None
+
+    def witness(x, d):
+        g = rhs(x, d)
+        s = sqrt(g, d)
+        if s is not None:
+            return 1, s
+        xi = (p - 1,) if d == 1 else (1, 1)
+        g2 = ((g[0] * xi[0]) % p,) if d == 1 else f2_mul(p, g, xi)
+        s = sqrt(g2, d)
+        return 0, (s if s is not None else ((0,) * d))
+
+    def rand_point(d):
+        while True:
+            x = (rng.randrange(p),) if d == 1 else (rng.randrange(p), rng.randrange(p))
+            y = sqrt(rhs(x, d), d)
+            if y is not None:
+                F = ob.FQ if d == 1 else ob.FQ2
+                mk = (lambda c: F(c[0])) if d == 1 else (lambda c: F(list(c)))
+                return (mk(x), mk(y), F.one())
+
+    rows = []
+
+    def enc_dec(P, d):
+        a = aff(P, d)
+        row = {"op": "enc", "g": d, "P": L(a), "r": [], "w": [], "sq": 0}
+        try:
+            s = (g2p.G1_to_pubkey if d == 1 else g2p.G2_to_signature)(P)
+            row["s"] = list(s)
+        except Exception as e:  # noqa: BLE001
+            row["s"] = f"EXC:{type(e).__name__}:{e}"[:100]
+        rows.append(row)
+        if isinstance(row["s"], list):
+            dec(bytes(row["s"]), d, "F4-g1-x0" if (d == 1 and a is not None and a[0] == (0,)) else "")
+
+    def dec(s, d, tag=""):
+        row = {"op": "dec", "g": d, "s": list(s), "P": [], "w": [], "sq": 0, "kf": tag}
+        try:
+            pt = (g2p.pubkey_to_G1 if d == 1 else g2p.signature_to_G2)(s)
+            a = aff(pt, d)
+            row["r"] = L(a)
+        except ValueError:
+            row["r"] = [0]
+        except Exception as e:  # noqa: BLE001
+            row["r"] = f"EXC:{type(e).__name__}:{e}"[:100]
+        if len(s) == 48 * d:
+            v1 = int.from_bytes(s[:48], "big") % 2 ** 381
+            v2 = int.from_bytes(s[48:96], "big") if d == 2 else 0
+            if v1 < p and v2 < p:
+                x = (v1,) if d == 1 else (v2, v1)
+                sq, w = witness(x, d)
+                row["sq"], row["w"] = sq, [limbs(c) for c in w]
+        if not row["w"]:
+            row["w"] = [[] for _ in range(d)]
+        rows.append(row)
+
+    for d, G, Z in ((1, ob.G1, ob.Z1), (2, ob.G2, ob.Z2)):
+        F = ob.FQ if d == 1 else ob.FQ2
+        pts = [G, ob.multiply(G, 2), ob.multiply(G, r - 1), ob.multiply(G, rng.randrange(1, r)), Z,
+               tuple(c * (F(7) if d == 1 else F([3, 5])) for c in ob.multiply(G, 11)), (F.zero(), F.one(), F.zero())]
+        pts += [rand_point(d) for _ in range(4 if quick else 40)]          # mostly outside the subgroup
+        if d == 1:
+            pts += [(F(0), F(2), F(1)), (F(0), F(p - 2), F(1)), (F(0), F(2) * F(9), F(9))]     # the order-3 points (0, +-2)
+        if d == 2:      # y with zero imaginary / zero real part: x in Fp gives y in Fp or i Fp
+            for _ in range(200):
+                x0 = rng.randrange(p)
+                y = sqrt(rhs((x0, 0), 2), 2)
+                if y is not None and (y[0] == 0 or y[1] == 0):
+                    pts.append((F([x0, 0]), F(list(y)), F.one()))
+                    pts.append((F([x0, 0]), -F(list(y)), F.one()))
+                    if len(pts) > (14 if quick else 60):
+                        break
+        for P in pts:
+            enc_dec(P, d)
+        # words: flag combinations x boundary values
+        good = bytes((g2p.G1_to_pubkey if d == 1 else g2p.G2_to_signature)(ob.multiply(G, 5)))
+        xs = [0, 1, p - 1, p, p + 1, 2 ** 381 - 1, int.from_bytes(good[:48], "big") % 2 ** 381, rng.randrange(p), rng.randrange(p)]
+        for c in (0, 1):
+            for b in (0, 1):
+                for a in (0, 1):
+                    for x in xs:
+                        w1 = ((c << 383) | (b << 382) | (a << 381) | x).to_bytes(48, "big")
+                        if d == 1:
+                            dec(w1, 1, "F4-g1-x0" if (c, b, x) == (1, 0, 0) else "")
+                        else:
+                            for z2 in (good[48:], bytes(48), (p).to_bytes(48, "big"), (2 ** 381 + 5).to_bytes(48, "big"),
+                                       bytes([0x80]) + good[49:], bytes([good[48] | 0x20]) + good[49:], (1).to_bytes(48, "big")):
+                                if x in xs[:3] + xs[6:7] or z2 == good[48:]:
+                                    dec(w1 + z2, 2)
+        for _ in range(6 if quick else 60):
+            dec(rng.randbytes(48 * d), d)
+    return rows
+
+
+def big_tables(ctx: Ctx):
+    rows = big_rows(ctx)
+    ctx.log(f"codec full size: {len(rows)} encodings / decodings of the real module")
+    ctx.add_cov("full_size_codec_rows", len(rows))
+    ctx.add_cov("full_size_decoded_points", sum(1 for r in rows if r["op"] == "dec" and isinstance(r["r"], list) and len(r["r"]) == 2))
+    tables.validate(ctx, "CodecBig", rows, invariants=["PremisesOK", "RowsOK"], result_keys=("r", "s"),
+                    tag=lambda r: f"codecbig:{r['op']}:G{r['g']}:{r.get('kf', '')}",
+                    describe=lambda r: f"{r['op']} G{r['g']} bytes={bytes(r['s']).hex() if isinstance(r['s'], list) else r['s']} "
+                                       f"result={'ValueError' if r['r'] == [0] else ('infinity' if r['r'] == [] else 'point')} sq={r['sq']}")
